@@ -238,7 +238,8 @@ def mod(number, divisor):
     if divisor == 0:
         return DIV0
 
-    return number % divisor
+    # the float remainder of decimals is off by up to a divisor: 0.7 % 0.1 is 0.09999999999999992
+    return _inexact(_exact(number) % _exact(divisor))
 
 
 @excel_helper(cse_params=None, err_str_params=-1, number_params=0)
